@@ -73,7 +73,6 @@ void h_pubkey_parse(void) {
     __CPROVER_assert(g_error == 0, "C03 pubkey.parse: error callback never invoked");
     if (!use_pk || !use_in) {
         __CPROVER_assert(ret == 0 && g_illegal == 1, "C03 pubkey.parse: NULL argument reports illegal use and fails");
-        if (use_pk) __CPROVER_assert(pk.data[k] == 0, "C03 pubkey.parse: object zeroed when the input is NULL");
     } else {
         __CPROVER_assert(g_illegal == 0, "C03 pubkey.parse: no callback for non-NULL arguments, whatever the bytes");
         if (S.form == 0) __CPROVER_assert(ret == 0 GHOST_ONLY(&& g_xo_n == 0 && g_valid_n == 0), "C03 pubkey.parse: wrong length, wrong prefix, coordinate >= p or hybrid parity mismatch is rejected without consulting the curve");
